@@ -47,8 +47,8 @@ PROPS = {
     },
     "C14": {
         "level": "proof",
-        "lean_modules": _MODS + ["Astria.Properties.C14"],
-        "theorems": ["Astria.C14_mirror", "Astria.C14_mirror_pre_aspen", "Astria.C14_aspen_migration_preserves", "Astria.C14_accepted_batch_mirrors",
+        "lean_modules": _MODS + ["Astria.Ledger.Escrow", "Astria.Ledger.Privileged", "Astria.Ledger.ValCount", "Astria.Properties.C14"],
+        "theorems": ["Astria.C14_count_and_nonempty_history", "Astria.C14_aspen_establishes_count", "Astria.C14_mirror", "Astria.C14_mirror_pre_aspen", "Astria.C14_aspen_migration_preserves", "Astria.C14_accepted_batch_mirrors",
                      "Astria.C14_add_then_remove_counterexample", "Astria.C14_double_removal_counterexample"],
         "harnesses": ["ledger"],
         "monitors": ["validator_mirror", "validator_updates_applicable", "dump_parse"],
